@@ -63,9 +63,15 @@ def r1_fx(ck, cx):
                 k = cx.ce.try_ev(tgt.slice, sc.mod, sc)
                 v = getattr(ev, '_sub', None) or ev.node.value
                 kw = None
-                if isinstance(v, ast.Call) and callee_name(v) in ('get', 'pop') and v.args:
-                    kw = cx.ce.try_ev(v.args[0], sc.mod, sc)
-                keys[k] = kw
+                kwn = init.node.args.kwarg.arg if init.node.args.kwarg is not None else None
+                for x in ast.walk(v):
+                    # the keyword the block is taken from: kwargs.get('co', ..) / kwargs.pop('co', ..) / kwargs['co']
+                    if isinstance(x, ast.Call) and callee_name(x) in ('get', 'pop') and x.args and isinstance(x.func, ast.Attribute) and U(x.func.value) == kwn:
+                        kw = cx.ce.try_ev(x.args[0], sc.mod, sc)
+                    elif isinstance(x, ast.Subscript) and U(x.value) == kwn and isinstance(x.ctx, ast.Load):
+                        kw = cx.ce.try_ev(x.slice, sc.mod, sc)
+                if kw is not None or k not in keys:
+                    keys[k] = kw        # the path on which the option was supplied names the keyword
     want = {'d': 'di', 'c': 'co', 'i': 'ir', 'h': 'hr'}
     for k, kw in sorted(want.items()):
         ck.ob('R1', init.qn, "store[%r] is the block passed as %r" % (k, kw), keys.get(k) == kw,
